@@ -107,6 +107,10 @@ def match_known(prop, sig):
     return None
 
 
+class HarnessError(Exception):
+    """the checking machinery itself failed (exit 2); never evidence about the property."""
+
+
 class Viol(dict):
     """A violation: sig (categorical site signature), msg, detail."""
 
